@@ -362,13 +362,14 @@ def user_leaves(F, tix, depth=0):
             n += x
         return n
     if k == "adt" and simple_name(t.get("cpath")) in ("Poll", "Option", "Result", "ControlFlow"):
+        # one variant at a time: the payloads of different variants are alternatives
         n = 0
         for a in t.get("args") or []:
             if isinstance(a, int):
                 x = user_leaves(F, a, depth + 1)
                 if x is None:
                     return None
-                n += x
+                n = max(n, x)
         return n
     if not mentions_param(F, tix):
         return 0
@@ -471,7 +472,42 @@ def maybe_init(body, tracked, single_leaf=()):
     return IN, OUT
 
 
-def joint_init_at(body, guards, L, partial_kills, targets):
+PAYLOAD_FREE = {"Pending", "None"}
+
+
+def payload_free_edges(body, L):
+    """CFG edges taken when (a Poll / Option layer of) wrapper local L is matched as `Pending` / `None`: on those paths
+    the wrapper holds no user value."""
+    out = set()
+    for b in sorted(body.reachable):
+        if body.is_cleanup(b):
+            continue
+        t = body.term(b)
+        if t["k"] != "switch":
+            continue
+        from .mir import op_place
+        p = op_place(t["op"])
+        if p is None or p["p"]:
+            continue
+        k = p["l"]
+        names = None
+        for s in body.stmts(b):
+            if s["k"] == "assign" and s["lhs"]["l"] == k and not s["lhs"]["p"] and s["rv"]["k"] == "discr" and s["rv"]["place"]["l"] == L:
+                names = {v: n for n, v in s["rv"].get("variants") or []}
+        if not names:
+            continue
+        seen_vals = set()
+        for v, tb in t.get("vals") or []:
+            seen_vals.add(v)
+            if names.get(v) in PAYLOAD_FREE:
+                out.add((b, tb))
+        rest = [n for v, n in names.items() if v not in seen_vals]
+        if len(rest) == 1 and rest[0] in PAYLOAD_FREE and isinstance(t.get("otherwise"), int):
+            out.add((b, t["otherwise"]))
+    return out
+
+
+def joint_init_at(body, guards, L, partial_kills, targets, kill_edges=()):
     """Path-correlated version of maybe_init for one local L together with the guard locals: the set of
     (live guards, L initialised) pairs that can hold at the terminator of each block in `targets`.
     Exact on gen/kill along each path, all switch successors are followed."""
@@ -526,7 +562,10 @@ def joint_init_at(body, guards, L, partial_kills, targets):
                 nxt.discard(p["l"])
         for tb in body.succs(b):
             if not body.is_cleanup(tb):
-                work.append((tb, frozenset(nxt)))
+                if (b, tb) in kill_edges:
+                    work.append((tb, frozenset(nxt - {L})))
+                else:
+                    work.append((tb, frozenset(nxt)))
     return out
 
 
